@@ -139,6 +139,7 @@ func (eng *Engine) load(mirror string, patterns []string) error {
 						badLines[dir] = map[int]bool{}
 					}
 					badLines[dir][line] = true
+					fmt.Fprintf(os.Stderr, "contract does not type-check: %v\n", e)
 				} else {
 					other++
 					fmt.Fprintf(os.Stderr, "load error: %s: %v\n", p.PkgPath, e)
